@@ -162,6 +162,8 @@ inline rc::Gen<Task> gen_task(int idx_hint = 0) {
 		k.owner = std::get<5>(b); k.setuid = std::get<6>(b); k.setgid = std::get<7>(b);
 		int na = std::get<0>(c) > 3 ? 0 : std::get<0>(c) % 4; if (std::get<0>(c) < 2) na = 0;
 		for (int i = 0; i < na; i++) { std::string s = std::get<1>(c)[(size_t)i]; for (auto &ch : s) if (ch == ' ') ch = '.'; k.attendees.push_back({s + "@example.org", (std::get<3>(c) >> i) & 1}); }
+		// 1 task in 30: many attendees (the list grows past its initial 16 slots)
+		if (std::get<3>(c) % 30 == 7) { int n2 = 14 + std::get<3>(c) % 27; for (int i = (int)k.attendees.size(); i < n2; i++) k.attendees.push_back({"person" + std::to_string(i) + "@example.org", (i & 1) != 0}); }
 		for (auto &ch : k.organizer) if (ch == ' ') ch = '.';
 		k.organizer_mailto = std::get<4>(c) == 1;
 		k.order = std::get<2>(c);
